@@ -202,6 +202,9 @@ def scripted_case(case):
 # ---------------------------------------------------------------------------------------------- (B) real models
 def real_case(case):
     name, gemini, alpha, mult, minf, keep, bs, dynamic, pre, restore, data_id, seed = case
+    form = "float64"
+    if isinstance(data_id, str):          # input form axis: same data as data_id 0 handed over as another array-like
+        form, data_id = data_id, 0
     n, d = 12, 4
     rs = np.random.RandomState(70_000 + data_id + 31 * seed)
     centers = np.array([[2, 2, 0, 0], [-2, -2, 0, 0], [2, -2, 0, 0]], dtype=float)
@@ -225,11 +228,12 @@ def real_case(case):
         else:
             return {"v": [], "stats": {"evals": 0}}
     model = M.make(name, **kw)
+    Xfit = {"float64": X, "list": X.tolist(), "float32": X.astype(np.float32), "fortran": np.asfortranarray(X)}[form]
     pk = dict(alpha_multiplier=mult, min_features=minf, keep_threshold=keep, restore_best_weights=restore, max_patience=2)
     where = dict(harness="real", model=name, gemini=gemini, alpha=alpha, alpha_multiplier=mult, min_features=minf, keep_threshold=keep,
-                 batch_size=bs, dynamic=bool(kw.get("dynamic", False)), y_given=pre, restore_best_weights=restore)
+                 batch_size=bs, dynamic=bool(kw.get("dynamic", False)), y_given=pre, restore_best_weights=restore, input_form=form)
     try:
-        ret, obs, texts = ref.observe_path(model, X, y, pk, call_limit=3000)
+        ret, obs, texts = ref.observe_path(model, Xfit, y, pk, call_limit=3000)
     except Exception as e:  # noqa
         return {"v": [violation("path_raises", {"error": repr(e)[:400], "config": where}, exc=type(e).__name__,
                                 selection_became_empty=bool("0 feature(s)" in str(e)), **where)], "stats": {"evals": 1}}
@@ -280,6 +284,10 @@ def explorers(tier, seed):
                                             if dev <= (3 if thorough else 2):
                                                 for data_id in ((0, 1) if thorough else (0,)):
                                                     cB.append((name, gemini, alpha, mult, minf, keep, bs, dynamic, pre, restore, data_id, seed))
+    for name in M.SPARSE:
+        g = "mi" if name == "SparseLinearMI" else "mmd_ova"
+        for form in ("list", "float32", "fortran"):
+            cB.append((name, g, 0.2, 2.0, 1, 0.9, None, False, False, True, form, seed))
     return [
         Explorer("scripted_environment", "props.c07", "scripted_case", cA, kind="choices", chunk=1, floor=100, case_timeout=1200,
                  rule=f"real path controller on scripted numerics: ALL answer scripts with <= {bound} non-default answers (of {len(ANSWERS) - 1} alternatives: "
